@@ -55,7 +55,10 @@ func (v *Validator) ScheduleCleanJobs() {
 	expirationTime := time.Now().Add(v.cleanJobTimeout)
 
 	v.jobs.Range(func(key string, value *MiningJob) bool {
-		value.expirationTime = expirationTime
+		// a job already scheduled for removal keeps its deadline: a later clean-jobs notify must not extend it
+		if value.expirationTime.IsZero() {
+			value.expirationTime = expirationTime
+		}
 		return true
 	})
 }
